@@ -24,7 +24,7 @@ if prop == 'C02':
     for cname, expr in CONSTRUCTS.items():
         for ctx, wrap in CONTEXTS.items():
             if ctx == 'lead_ws' or (ctx == 'listitem' and cname in NOT_LIST_ITEMS): continue      # a canonical file does not begin with whitespace
-            if (cname, None) in NOT_CANON or (cname, 'bindval' if ctx == 'utf8_lead' else ctx) in NOT_CANON: continue      # utf8_lead is a binding-value position too
+            if (cname, None) in NOT_CANON or (cname, 'bindval' if ctx == 'utf8_lead' else ctx) in NOT_CANON or (expr.startswith('let\n') and ctx in ('bindval', 'utf8_lead')): continue      # utf8_lead is a binding-value position too
             p = wrap(expr) + '\n'; cells += 1; judged += 1
             try: r = parse(p).rebuild()
             except Exception as e: failing.append([cname, '-', 'canonical', ctx, 'parse/rebuild raises %s on valid input' % type(e).__name__, p, '']); continue
